@@ -84,6 +84,14 @@ struct C01Vis {
 				if(std::addressof(brk(bt, jx)) != base + m.off[std::size_t(k)]) { violation("C01:broadcasted:transposed:element", "(~broadcasted()) designates another element at " + join(jx)); break; } } } count("op:~broadcasted()"); }
 			count("op:broadcasted");
 		}
+		if constexpr(D >= 1) {  // the leading extension as a range of indices: for(auto i : v.extension()) visits first, first+1, ..., last-1 (README: index loops)
+			op("extension-range"); auto const ext = v.extension(); L const f = L(ext.first()); L n = 0; for(auto i : ext) { if(L(i) != f + n) { violation("C01:extension:iteration", "iterating extension() yields " + std::to_string(L(i)) + " at step " + std::to_string(n) + ", expected " + std::to_string(f + n)); break; } ++n; }
+			if(n != m.size[0]) violation("C01:extension:iteration-count", "iterating extension() visits " + std::to_string(n) + " indices, the view has " + std::to_string(m.size[0]));
+			if(L(ext.end() - ext.begin()) != m.size[0] || L(ext.size()) != m.size[0] || L(ext.last()) - f != m.size[0]) violation("C01:extension:size", "extension() end - begin / size() / last - first disagree with the view's size");
+			if(m.size[0] > 0) { L const k = m.size[0] - 1; if(L(ext[k]) != f + k) violation("C01:extension:subscript", "extension()[k] != first + k"); auto it = ext.begin(); it += k; if(L(*it) != f + k) violation("C01:extension:+=", "extension().begin() += k does not yield first + k");
+				auto e2 = ext.end(); --e2; if(L(*e2) != f + k) violation("C01:extension:--", "--extension().end() does not yield last - 1"); if(!ext.contains(f + k) || ext.contains(f + k + 1) || ext.contains(f - 1)) violation("C01:extension:contains", "contains() disagrees with [first, last)"); }
+			count("op:extension-range");
+		}
 		if constexpr(D >= 1 && decltype(can_reindex<std::remove_reference_t<V>>(0))::value) {  // (the 1-D specialisation declares reindexed() for non-const objects only; those are skipped)  the "all" placeholder on a dimension whose first index is not 0 (README: S(multi::_) is S(S.extension())): same extension, same elements
 			op("call(_):re-based"); std::vector<L> ix(std::size_t(D), 0); L const N = std::min<L>(m.n(), 48);
 			for(L r : {L(-3), L(2)}) { auto&& w = v.reindexed(r); auto&& wa = w(multi::_);
@@ -93,6 +101,8 @@ struct C01Vis {
 					if(L(wc.extension().first()) != r || L(wc.size()) != m.size[0]) { violation("C01:call(_,j):re-based:extension", "w(_, j) of a view whose leading extension starts at " + std::to_string(r) + " reports [" + std::to_string(L(wc.extension().first())) + "," + std::to_string(L(wc.extension().last())) + ")"); continue; }
 					for(L i = 0; i < std::min<L>(m.size[0], 6); ++i) { std::vector<L> ex(std::size_t(D), 0); ex[0] = i; ex[1] = j; std::vector<L> jx(std::size_t(D - 1), 0); jx[0] = r + i;
 						if(std::addressof(brk(wc, jx)) != base + m.off[std::size_t(m.lin(ex))]) { violation("C01:call(_,j):re-based:element", "w(_, j)[i] designates another element than w[i][j]"); break; } } }
+					if(m.size[0] >= 2) { auto&& wl = w(r + 1 <= multi::_, 0); std::vector<L> ex(std::size_t(D), 0); ex[0] = 1; std::vector<L> jx(std::size_t(D - 1), 0); jx[0] = L(wl.extension().first());  // (a range-sliced view starts at the parent's first index: only size and element identity are prescribed)
+						if(L(wl.size()) != m.size[0] - 1) violation("C01:call(k<=_,j):re-based:extension", "w(first+1 <= _, 0) does not have size() - 1 elements"); else if(std::addressof(brk(wl, jx)) != base + m.off[std::size_t(m.lin(ex))]) violation("C01:call(k<=_,j):re-based:element", "the first element of w(first+1 <= _, 0) is not w[first+1][0]"); }
 					{ auto&& wu = w(multi::_ < r + 1, 0); if(L(wu.size()) != 1 || L(wu.extension().first()) != r) violation("C01:call(_<n,j):re-based:extension", "w(_ < first+1, 0) is not the one-element range [first, first+1)"); } }
 			}
 			count("op:call(_):re-based");
